@@ -2591,25 +2591,27 @@ class Parameters:
         values = self_.values()
         restore = {k: values[k] for k, v in kwargs.items() if k in values}
 
-        for (k, v) in kwargs.items():
-            if k not in self_:
-                self_._BATCH_WATCH = False
-                raise ValueError(f"{k!r} is not a parameter of {self_.cls.__name__}")
+        try:
             try:
-                setattr(self_or_cls, k, v)
-            except Exception:
-                self_._BATCH_WATCH = False
-                raise
-
-        self_._BATCH_WATCH = BATCH_WATCH
-        if not BATCH_WATCH:
-            self_._batch_call_watchers()
-
-        for tp in trigger_params:
-            p = self_[tp]
-            p._mode = 'reset'
-            setattr(self_or_cls, tp, p._autotrigger_reset_value)
-            p._mode = 'set-reset'
+                for (k, v) in kwargs.items():
+                    if k not in self_:
+                        raise ValueError(f"{k!r} is not a parameter of {self_.cls.__name__}")
+                    setattr(self_or_cls, k, v)
+            finally:
+                # Also when a value is rejected: the batching state is put
+                # back as it was found (a surrounding batch stays open) and
+                # the changes already applied are announced now, not at some
+                # later unrelated assignment.
+                self_._BATCH_WATCH = BATCH_WATCH
+                if not BATCH_WATCH:
+                    self_._batch_call_watchers()
+        finally:
+            # Event parameters reset themselves whatever happened above
+            for tp in trigger_params:
+                p = self_[tp]
+                p._mode = 'reset'
+                setattr(self_or_cls, tp, p._autotrigger_reset_value)
+                p._mode = 'set-reset'
         return restore
 
     # PARAM3_DEPRECATION
